@@ -73,7 +73,21 @@ def _replay(job):
     def attempt(name, fn, eligible, required):
         try:
             r1 = fn()
+            if name == "get_downsampled_scatter":
+                # a caller that changes what it was handed: the next
+                # identical request still returns events of the dataset
+                r1 = dict(r1, ret=np.array(r1["ret"], copy=True),
+                          handed=r1["ret"])
+                if r1["handed"].flags.writeable and r1["handed"].size:
+                    r1["handed"][...] = -777.0
             r2 = fn()
+            if name == "get_downsampled_scatter":
+                bad2 = check_result(r2["src"], r2["idx"], r2["ret"],
+                                    eligible, required, r2["n_in"])
+                if bad2:
+                    out.append(("%s after the caller changed the arrays of "
+                                "an earlier identical request: %s" % (
+                                    name, bad2), ""))
             cached.Cache._keys = []      # = clear_cache() minus gc.collect()
             cached.Cache._cache = {}
             r3 = fn()
